@@ -964,12 +964,68 @@ func rootIDRaw(t *Term) *Term {
 
 // ---- printing ----
 
-func (t *Term) String() string {
-	p := &printer{inline: true, names: map[int]string{}}
-	return p.expr(t)
+func (t *Term) String() string { return termPreview(t, 2000) }
+
+// termPreview prints t as an S-expression, stopping after about max bytes (terms are DAGs: a full tree print can be exponential)
+func termPreview(t *Term, max int) string {
+	var sb strings.Builder
+	var rec func(t *Term, depth int)
+	rec = func(t *Term, depth int) {
+		if sb.Len() > max {
+			return
+		}
+		switch t.Op {
+		case "int":
+			sb.WriteString(strconv.FormatInt(t.Int, 10))
+			return
+		case "bool":
+			if t.Int == 1 {
+				sb.WriteString("true")
+			} else {
+				sb.WriteString("false")
+			}
+			return
+		case "nilref":
+			sb.WriteString("nil")
+			return
+		case "strlit":
+			sb.WriteString(strconv.Quote(t.Name))
+			return
+		case "var", "bound":
+			sb.WriteString(t.Name)
+			return
+		}
+		if depth > 12 {
+			sb.WriteString("...")
+			return
+		}
+		sb.WriteByte('(')
+		switch t.Op {
+		case "app":
+			sb.WriteString(t.Name)
+		case "sub":
+			sb.WriteString("field:" + fieldIDNames[t.Int])
+		case "forall", "exists":
+			sb.WriteString(t.Op + " " + t.Name + " ::")
+		default:
+			sb.WriteString(t.Op)
+		}
+		for _, a := range t.Args {
+			sb.WriteByte(' ')
+			rec(a, depth+1)
+			if sb.Len() > max {
+				sb.WriteString(" ...")
+				break
+			}
+		}
+		sb.WriteByte(')')
+	}
+	rec(t, 0)
+	return sb.String()
 }
 
 type printer struct {
+	ground bool // omit quantified axioms (frame axioms of havoc arrays, string/rootid axioms): a relaxation
 	inline bool
 	names  map[int]string
 	defs   []string
@@ -1073,7 +1129,11 @@ func (p *printer) expr(t *Term) string {
 		a := p.expr(t.Args[0])
 		f := p.expr(t.Args[1])
 		p.usesRootID = true
-		p.defs = append(p.defs, fmt.Sprintf("(declare-const %s %s)\n(assert (forall ((r!q Ref)) (! (= (select %s r!q) (ite (= (rootid r!q) %d) (select %s r!q) (select %s r!q))) :pattern ((select %s r!q)))))", sym, t.S, sym, t.Int, f, a, sym))
+		if p.ground {
+			p.defs = append(p.defs, fmt.Sprintf("(declare-const %s %s)", sym, t.S))
+		} else {
+			p.defs = append(p.defs, fmt.Sprintf("(declare-const %s %s)\n(assert (forall ((r!q Ref)) (! (= (select %s r!q) (ite (= (rootid r!q) %d) (select %s r!q) (select %s r!q))) :pattern ((select %s r!q)))))", sym, t.S, sym, t.Int, f, a, sym))
+		}
 		p.names[t.id] = sym
 		return sym
 	case "havocabove":
@@ -1082,7 +1142,11 @@ func (p *printer) expr(t *Term) string {
 		a := p.expr(t.Args[0])
 		f := p.expr(t.Args[1])
 		p.usesRootID = true
-		p.defs = append(p.defs, fmt.Sprintf("(declare-const %s %s)\n(assert (forall ((r!q Ref)) (! (= (select %s r!q) (ite (< (rootid r!q) %d) (select %s r!q) (select %s r!q))) :pattern ((select %s r!q)))))", sym, t.S, sym, t.Int, a, f, sym))
+		if p.ground {
+			p.defs = append(p.defs, fmt.Sprintf("(declare-const %s %s)", sym, t.S))
+		} else {
+			p.defs = append(p.defs, fmt.Sprintf("(declare-const %s %s)\n(assert (forall ((r!q Ref)) (! (= (select %s r!q) (ite (< (rootid r!q) %d) (select %s r!q) (select %s r!q))) :pattern ((select %s r!q)))))", sym, t.S, sym, t.Int, a, f, sym))
+		}
 		p.names[t.id] = sym
 		return sym
 	default:
@@ -1112,7 +1176,39 @@ const smtPrelude = `(declare-sort Str 0)
 
 // Query renders: assumptions /\ not goal
 func smtQuery(assumptions []*Term, goal *Term, wantModel bool, modelTerms map[string]*Term) string {
-	p := &printer{names: map[int]string{}}
+	return smtQueryG(assumptions, goal, wantModel, modelTerms, false)
+}
+
+func hasQuant(t *Term) bool {
+	if r, ok := quantMemo[t.id]; ok {
+		return r
+	}
+	r := t.Op == "forall" || t.Op == "exists"
+	if !r {
+		for _, a := range t.Args {
+			if hasQuant(a) {
+				r = true
+				break
+			}
+		}
+	}
+	quantMemo[t.id] = r
+	return r
+}
+
+var quantMemo = map[int]bool{}
+
+func smtQueryG(assumptions []*Term, goal *Term, wantModel bool, modelTerms map[string]*Term, ground bool) string {
+	p := &printer{names: map[int]string{}, ground: ground}
+	if ground {
+		var keep []*Term
+		for _, a := range assumptions {
+			if !hasQuant(a) {
+				keep = append(keep, a)
+			}
+		}
+		assumptions = keep
+	}
 	p.expr(StrLit(""))
 	var asserts []string
 	for _, a := range assumptions {
@@ -1148,13 +1244,16 @@ func smtQuery(assumptions []*Term, goal *Term, wantModel bool, modelTerms map[st
 		sb.WriteString(p.decls[sym])
 		sb.WriteByte('\n')
 	}
-	if p.usesStrlen || true {
+	if ground {
+		sb.WriteString("(declare-fun strlen (Str) Int)\n(declare-fun strcat (Str Str) Str)\n(declare-fun rootid (Ref) Int)\n")
+	}
+	if !ground {
 		sb.WriteString("(declare-fun strlen (Str) Int)\n(assert (forall ((s!q Str)) (! (>= (strlen s!q) 0) :pattern ((strlen s!q)))))\n")
 	}
-	if p.usesConcat {
+	if p.usesConcat && !ground {
 		sb.WriteString("(declare-fun strcat (Str Str) Str)\n(assert (forall ((a!q Str) (b!q Str)) (! (= (strlen (strcat a!q b!q)) (+ (strlen a!q) (strlen b!q))) :pattern ((strcat a!q b!q)))))\n(assert (forall ((a!q Str)) (! (= (strcat " + p.emptySym() + " a!q) a!q) :pattern ((strcat " + p.emptySym() + " a!q)))))\n(assert (forall ((a!q Str)) (! (= (strcat a!q " + p.emptySym() + ") a!q) :pattern ((strcat a!q " + p.emptySym() + ")))))\n(assert (forall ((a!q Str) (b!q Str) (c!q Str)) (! (= (strcat (strcat a!q b!q) c!q) (strcat a!q (strcat b!q c!q))) :pattern ((strcat (strcat a!q b!q) c!q)))))\n")
 	}
-	if p.usesRootID {
+	if p.usesRootID && !ground {
 		sb.WriteString("(declare-fun rootid (Ref) Int)\n(assert (= (rootid nilref) 0))\n(assert (forall ((f!q Int) (s!q Int)) (! (= (rootid (obj f!q s!q)) f!q) :pattern ((obj f!q s!q)))))\n(assert (forall ((p!q Ref) (f!q Int)) (! (= (rootid (sub p!q f!q)) (rootid p!q)) :pattern ((sub p!q f!q)))))\n(assert (forall ((p!q Ref) (i!q Int)) (! (= (rootid (elem p!q i!q)) (rootid p!q)) :pattern ((elem p!q i!q)))))\n(assert (forall ((p!q Ref) (k!q Str)) (! (= (rootid (mkey p!q k!q)) (rootid p!q)) :pattern ((mkey p!q k!q)))))\n")
 	}
 	if len(lits) > 1 {
@@ -1164,7 +1263,9 @@ func smtQuery(assumptions []*Term, goal *Term, wantModel bool, modelTerms map[st
 		k, _ := strconv.Atoi(sym[4:])
 		sb.WriteString(fmt.Sprintf("(assert (= (strlen %s) %d))\n", sym, len(strLitList[k])))
 	}
-	sb.WriteString("(assert (forall ((s!q Str)) (! (=> (= (strlen s!q) 0) (= s!q " + p.emptySym() + ")) :pattern ((strlen s!q)))))\n")
+	if !ground {
+		sb.WriteString("(assert (forall ((s!q Str)) (! (=> (= (strlen s!q) 0) (= s!q " + p.emptySym() + ")) :pattern ((strlen s!q)))))\n")
+	}
 	for _, a := range asserts {
 		sb.WriteString(a)
 		sb.WriteByte('\n')
